@@ -662,10 +662,11 @@ def skipLoop (E : Env) (s : Bytes) : Nat → Nat → Nat → Int
           else skipLoop E s fuel (i + n0) (fails + 1)
     else -1
 
-/-- the part of Index after the dispatch `switch` (first two runes valid) -/
-def indexSkip (cfg : Cfg) (s sub : Bytes) : Int :=
+/-- what the skip loop works with: the candidate sets of the first two needle runes (upper/lower pair with
+    the İ/ı hack, plus the extra folds), the first-rune search, the verifier, the Rabin-Karp fall-back,
+    the window bound and the cut-over test -/
+def skipEnv (cfg : Cfg) (s sub : Bytes) : Env :=
   let p0 := decodeRune sub
-  if p0.2 ≥ sub.length then fault else
   let p1 := decodeRune (sub.drop p0.2)
   let folds0 := foldsExcl p0.1
   let folds1 := foldsExcl p1.1
@@ -673,16 +674,18 @@ def indexSkip (cfg : Cfg) (s sub : Bytes) : Int :=
   let ul0 := ulHack p0.1
   let ul1 := ulHack p1.1
   let u0 := ul0.1; let l0 := ul0.2; let u1 := ul1.1; let l1 := ul1.2
-  let t := min s.length (s.length + 2 - sub.length / 3)
-  skipLoop
-    { cand0 := fun r => r == u0 || r == l0 || (folds0.1 != 0 && (r == folds0.1 || r == folds0.2))
-      cand1 := fun r => r == u1 || r == l1 || (folds1.1 != 0 && (r == folds1.1 || r == folds1.2))
-      idxFirst := fun x => if folds0.1 = 0 then indexRune2 cfg x l0 u0 else indexRune cfg x l0
-      hp := fun y => hasPrefixUnicode cfg y needle
-      rk := fun x => indexRabinKarpUnicode cfg x sub
-      t := t
-      cut := fun fails i => fails ≥ 4 + i / 16 }
-    s (s.length + 2) 0 0
+  { cand0 := fun r => r == u0 || r == l0 || (folds0.1 != 0 && (r == folds0.1 || r == folds0.2))
+    cand1 := fun r => r == u1 || r == l1 || (folds1.1 != 0 && (r == folds1.1 || r == folds1.2))
+    idxFirst := fun x => if folds0.1 = 0 then indexRune2 cfg x l0 u0 else indexRune cfg x l0
+    hp := fun y => hasPrefixUnicode cfg y needle
+    rk := fun x => indexRabinKarpUnicode cfg x sub
+    t := min s.length (s.length + 2 - sub.length / 3)
+    cut := fun fails i => fails ≥ 4 + i / 16 }
+
+/-- the part of Index after the dispatch `switch` (first two runes valid) -/
+def indexSkip (cfg : Cfg) (s sub : Bytes) : Int :=
+  if (decodeRune sub).2 ≥ sub.length then fault
+  else skipLoop (skipEnv cfg s sub) s (s.length + 2) 0 0
 
 def Index (cfg : Cfg) (s sub : Bytes) : Int :=
   let n := sub.length
